@@ -37,8 +37,6 @@ Codes(s) == [j \in 1..Len(s) |-> Code(s[j])]
 Fail(r, x, clause) == PrintT(<<"FAIL", r, x, clause>>)
 Chk(cond, r, x, clause) == IF cond THEN TRUE ELSE Fail(r, x, clause)
 
-Judged(rec) == rec.err = 0 /\ InDomain(Items(rec))
-
 \* first position at which two sequences differ (0 = equal), reported as the detail of lwsp_output
 RECURSIVE FirstDiff(_, _, _)
 FirstDiff(a, b, j) == IF j > Len(a) /\ j > Len(b) THEN 0
